@@ -41,6 +41,11 @@ func ZZ_C20_Provider() {
 		s.Receive(actor.ZZContext(ze.E, self, msg, sender))
 	}
 	for step := 0; step < N && !escaped; step++ {
+		zzrt.MapRotate(0)
+		if step == N-1 && zzrt.Param("ROT") == 1 {
+			// the last message is processed under every rotation of the iteration order of the provider's maps
+			zzrt.MapRotate(zzrt.Choose(U))
+		}
 		agentBefore := len(agent.Got)
 		remBefore := len(rem.Sent)
 		op := zzrt.Choose(3)
